@@ -2,13 +2,13 @@
 import itertools
 import random
 
-from .. import gens, hist_array
+from .. import gens, hist_array, hist_stale
 from ..common import Result
 
 PID = 'C03'
 LEVEL = 'exploration'
 RULE = ('bounded-exhaustive operation sequences (quick: all of length <= 2 and every second one of length 3, alternating with the '
-        'seed; thorough: all of length <= 4) over a 20-op alphabet from 5 '
+        'seed; thorough: all of length <= 4) over a 21-op alphabet from 5 '
         'start shapes with the dtype/byte order rotating through all 26 combinations, plus long random histories '
         '(30-200 steps, 29 op kinds); after every step: live handle, fresh handle and raw files vs NumPy model, '
         'prefix bytes, rejected calls leave state unchanged. Non-trivial = at least one successful state-changing '
@@ -52,10 +52,17 @@ def cases(tier, seed):
         yield {'start': {'shape': list(start), 'numtype': nt, 'bo': bo, 'chunklen': rng.choice([1, 2, 100])},
                'ops': [rng.choice(allops) for _ in range(n)], 'vseed': f'{seed}:L{k}',
                'observe': 'sparse' if k % 2 else 'every'}
+    # histories in which the array changes behind the handle (by path / second handle / re-creation) before it is used again
+    yield from hist_stale.array_cases(random.Random(f'C03:{seed}:stale'), 300 if tier == 'quick' else 4000, seed)
 
 
 def run_case(case, env):
     res = Result()
+    if case.get('kind') == 'stale':
+        hist_stale.run_array(env, res, case, want_readme=False)
+        res.sig = hist_stale.sig_of(case)
+        res.dim('history_length', 'stale-handle')
+        return res
     hist_array.run(env, res, case, MONITORS)
     res.sig = hist_array.sig_of(case)
     res.dim('dtype', f"{case['start']['numtype']}/{case['start']['bo']}")
